@@ -48,15 +48,15 @@ package policy
 
 // The condition closures: what a registered condition computes.
 //@ func (*BaseFailurePolicy).HandleErrors$1
-//@   ensures [C12.cond.errors] result == ufb("errors.Is", actualErr, t)
+//@   ensures [C12.cond.errors+C10.handles.error_condition] result == ufb("errors.Is", actualErr, t)
 //@   modifies nothing
 // (a nil target or one that is neither an interface nor an error type panics: documented, stated as a precondition)
 //@ func (*BaseFailurePolicy).HandleErrorTypes$1
 //@   requires validErrTarget(t)
-//@   ensures [C12.cond.errortypes] result == errTypesMatch(actualErr, t)
+//@   ensures [C12.cond.errortypes+C10.handles.errortype_condition] result == errTypesMatch(actualErr, t)
 //@   modifies methodcalls
 //@ func (*BaseFailurePolicy).HandleResult$1
-//@   ensures [C12.cond.result] result_0 == ufb("reflect.DeepEqual", r, result)
+//@   ensures [C12.cond.result+C10.handles.result_condition] result_0 == ufb("reflect.DeepEqual", r, result)
 //@   modifies nothing
 //@ func (*BaseAbortablePolicy).AbortOnErrors$1
 //@   ensures [C12.abort.errors+C02.abort.condition_bound] result_0 == ufb("errors.Is", actualErr, t)
